@@ -177,7 +177,26 @@ func fastTempRoot() string {
 // (within nanoseconds when k processors are free; after 200 µs at the latest),
 // and waits for all of them. It is how a step hands the node several inputs
 // "at the same time", as memberlist's packet and stream handlers do.
+// lockYield, when the package is built with the "locks" overlay (see
+// yield_overlay_test.go), makes every goroutine of the node linger after it
+// released one of serf's mutexes: mode 0 not at all, mode 1 for 40us after
+// every release, mode 2 for 100us after releasing a read lock. That is the
+// point where a goroutine that checked under one critical section and acts
+// under the next can be overtaken; lingering is something any scheduler may
+// do, so it adds schedules and cannot make correct code fail.
+var lockYield = func(mode int) {}
+
+// volleySeq makes successive volleys of one case use different yield modes;
+// bodies reset it from the case so that a replay takes the same modes.
+var volleySeq int
+
+func volleyReset(salt int) { volleySeq = salt }
+
 func volley(k int, f func(i int)) {
+	mode := volleySeq % 3
+	volleySeq++
+	lockYield(mode)
+	defer lockYield(0)
 	var ready atomic.Int32
 	var wg sync.WaitGroup
 	wg.Add(k)
